@@ -4600,11 +4600,13 @@ struct LoadOptionsRef<'a> {
 
 #[derive(Debug, Default)]
 struct PendingState<'a> {
-  deferred: HashMap<ModuleSpecifier, DeferredLoad>,
+  // insertion-ordered: the order these are drained in decides which importer
+  // claims a shared slot (and so which referrer an error names)
+  deferred: IndexMap<ModuleSpecifier, DeferredLoad>,
   pending: FuturesOrdered<PendingInfoFuture<'a>>,
   jsr: PendingJsrState,
   npm: PendingNpmState,
-  dynamic_branches: HashMap<ModuleSpecifier, PendingDynamicBranch>,
+  dynamic_branches: IndexMap<ModuleSpecifier, PendingDynamicBranch>,
 }
 
 #[derive(Debug, Clone, Copy, PartialEq, Eq)]
